@@ -15,6 +15,7 @@ import (
 	"github.com/janelia-flyem/dvid/datatype/common/labels"
 	"github.com/janelia-flyem/dvid/datatype/common/proto"
 	"github.com/janelia-flyem/dvid/dvid"
+	lz4 "github.com/janelia-flyem/go/golz4-updated"
 
 	"verifharness/internal/node"
 )
@@ -80,6 +81,9 @@ type Op struct {
 	Remain  uint64   `json:"remain,omitempty"`
 	Old     uint64   `json:"old,omitempty"`
 	Label   uint64   `json:"label,omitempty"`
+	How     string   `json:"how,omitempty"`    // agglo: "index" (POST index per label) or "indices" (one batch)
+	Chosen  bool     `json:"chosen,omitempty"` // splitsv: the client names the new supervoxels
+	NewObs  *Obs     `json:"-"`                // agglo: the observation of the target state (the posted indices)
 	NewSV   []uint64 `json:"-"` // target supervoxel array (for overwrite)
 	OldSV   []uint64 `json:"-"` // source supervoxel array (for overwrite)
 }
@@ -112,6 +116,8 @@ type Obs struct {
 		SV   uint64 `json:"sv"`
 		Size uint64 `json:"size"`
 	} `json:"svsizes"`
+	// Rd is the Reads record of LabelmapReads.tla for the same state (nil: extended reads are skipped)
+	Rd *Reads `json:"-"`
 }
 
 // Inst is a labelmap instance under test.
@@ -126,6 +132,16 @@ type Inst struct {
 	Alloc   []uint64 // allocated labels in issue order
 	MutIDs  []uint64 // mutation ids in issue order
 	NReq    int
+	rot     int // rotation of the option combinations of the extended read set
+	RotSeed int // starting point of the rotation (seed and worker)
+	NoExt   bool // skip the extended read set (checks that only need the basic reads)
+	// ExtEvery > 1: the extended read set runs on every ExtEvery-th full comparison only (thorough tier)
+	ExtEvery int
+	nCompare int
+	// MultiBlock: voxel writes post the x-row of blocks in one request, with rotating compression
+	MultiBlock bool
+	// LabelBase is added to the initial labels of a layout (large label values, C08-12)
+	nIngest int
 }
 
 // Labels is a bijection between specification labels and the labels the server uses at
@@ -136,6 +152,8 @@ type Labels struct {
 	// BindFromVolume: the next comparison may bind still-unbound specification labels to the
 	// labels found in the stored voxels (ids the server allocated without reporting them)
 	BindFromVolume bool
+	// Dead lists the (real) supervoxel ids that were split away at this version or an ancestor
+	Dead []uint64
 }
 
 // NewLabels returns the identity on nothing.
@@ -152,6 +170,7 @@ func (l *Labels) Clone() *Labels {
 	for k, v := range l.ToSpec {
 		c.ToSpec[k] = v
 	}
+	c.Dead = append([]uint64(nil), l.Dead...)
 	return c
 }
 
@@ -179,7 +198,13 @@ func (l *Labels) reals(specs []uint64) []uint64 {
 
 func (in *Inst) http(method, url string, body []byte) (node.Resp, error) {
 	in.NReq++
-	return in.N.HTTP(method, url, body)
+	r, err := in.N.HTTP(method, url, body)
+	if err != nil {
+		// name the request: a node that stops answering is an infrastructure error, and which
+		// request it hung on is what one needs to know
+		err = fmt.Errorf("%s %s: %w", method, url, err)
+	}
+	return r, err
 }
 
 // Create makes the instance at root.
@@ -224,6 +249,80 @@ func (in *Inst) Ingest(uuid string, sv []uint64, blocks []int, mutate bool) erro
 		}
 		if r.Status != 200 {
 			return fmt.Errorf("POST raw block %d: %d %s", blk, r.Status, r.Bytes())
+		}
+	}
+	for _, l := range sv {
+		if l > in.MaxSeen {
+			in.MaxSeen = l
+		}
+	}
+	return nil
+}
+
+// IngestRows posts voxels like Ingest, but every maximal run of x-adjacent blocks goes out as
+// one multi-block POST raw request, with a rotating compression option ("", lz4, gzip).
+func (in *Inst) IngestRows(uuid string, sv []uint64, blocks []int, mutate bool) error {
+	g := in.G
+	want := map[[3]int]bool{}
+	for _, b := range blocks {
+		want[g.Blocks[b-1]] = true
+	}
+	var starts [][3]int
+	for c := range want {
+		if !want[[3]int{c[0] - 1, c[1], c[2]}] {
+			starts = append(starts, c)
+		}
+	}
+	sort.Slice(starts, func(i, j int) bool { return fmt.Sprint(starts[i]) < fmt.Sprint(starts[j]) })
+	for _, c := range starts {
+		n := 1
+		for want[[3]int{c[0] + n, c[1], c[2]}] {
+			n++
+		}
+		min := [3]int{c[0] * g.BS, c[1] * g.BS, c[2] * g.BS}
+		size := [3]int{n * g.BS, g.BS, g.BS}
+		vol := make([]byte, size[0]*size[1]*size[2]*8)
+		i := 0
+		for z := min[2]; z < min[2]+size[2]; z++ {
+			for y := min[1]; y < min[1]+size[1]; y++ {
+				for x := min[0]; x < min[0]+size[0]; x++ {
+					if r := g.RegionAt(x, y, z); r != 0 {
+						binary.LittleEndian.PutUint64(vol[i:], sv[r-1])
+					}
+					i += 8
+				}
+			}
+		}
+		in.nIngest++
+		q := ""
+		switch in.nIngest % 3 {
+		case 1:
+			buf := make([]byte, lz4.CompressBound(vol))
+			n, err := lz4.Compress(vol, buf)
+			if err != nil {
+				return err
+			}
+			vol, q = buf[:n], "compression=lz4"
+		case 2:
+			var zbuf bytes.Buffer
+			zw := gzip.NewWriter(&zbuf)
+			zw.Write(vol)
+			zw.Close()
+			vol, q = zbuf.Bytes(), "compression=gzip"
+		}
+		if mutate {
+			if q != "" {
+				q += "&"
+			}
+			q += "mutate=true"
+		}
+		url := fmt.Sprintf("/api/node/%s/%s/raw/0_1_2/%d_%d_%d/%d_%d_%d?%s", uuid, in.Name, size[0], size[1], size[2], min[0], min[1], min[2], q)
+		r, err := in.http("POST", url, vol)
+		if err != nil {
+			return err
+		}
+		if r.Status != 200 {
+			return fmt.Errorf("POST raw %v+%v?%s: %d %s", min, size, q, r.Status, r.Bytes())
 		}
 	}
 	for _, l := range sv {
@@ -306,7 +405,28 @@ func (in *Inst) Apply(uuid string, op Op, lab *Labels) (int, []string, error) {
 			reg[r] = true
 		}
 		payload := EncodeRLEs(in.G.RegionRLEs(reg))
-		r, err := in.http("POST", fmt.Sprintf("%s/split-supervoxel/%d", base, lab.Real(op.SV)), payload)
+		old := lab.Real(op.SV)
+		if op.Chosen {
+			// the client names the two new supervoxels: labels above everything present or allocated
+			a, b := in.MaxSeen+3, in.MaxSeen+5
+			r, err := in.http("POST", fmt.Sprintf("%s/split-supervoxel/%d?split=%d&remain=%d", base, old, a, b), payload)
+			if err != nil || r.Status != 200 {
+				return r.Status, nil, err
+			}
+			var o opResp
+			json.Unmarshal(r.Bytes(), &o)
+			in.noteMut(o.MutationID, &probs, "split-supervoxel")
+			if o.SplitSupervoxel != a || o.RemainSupervoxel != b {
+				probs = append(probs, fmt.Sprintf("split-supervoxel?split=%d&remain=%d answered %s", a, b, r.Bytes()))
+			}
+			in.Alloc = append(in.Alloc, a, b)
+			in.MaxSeen = b
+			lab.Bind(op.Split, a)
+			lab.Bind(op.Remain, b)
+			lab.Dead = append(lab.Dead, old)
+			return 200, probs, nil
+		}
+		r, err := in.http("POST", fmt.Sprintf("%s/split-supervoxel/%d", base, old), payload)
 		if err != nil || r.Status != 200 {
 			return r.Status, nil, err
 		}
@@ -317,7 +437,65 @@ func (in *Inst) Apply(uuid string, op Op, lab *Labels) (int, []string, error) {
 		in.noteAlloc(o.RemainSupervoxel, &probs, "split-supervoxel(remain)")
 		lab.Bind(op.Split, o.SplitSupervoxel)
 		lab.Bind(op.Remain, o.RemainSupervoxel)
+		lab.Dead = append(lab.Dead, old)
 		return 200, probs, nil
+	case "agglo":
+		// state-changing ingest: POST mappings (supervoxels of the merged bodies -> target) plus the
+		// indices of the target state (target = union, merged = empty), as one batch or one by one
+		if op.NewObs == nil {
+			return 0, nil, fmt.Errorf("agglo needs the observation of the target state")
+		}
+		rt := lab.Real(op.Target)
+		m := &proto.MappingOps{Mappings: []*proto.MappingOp{{Mutid: 0, Mapped: rt, Original: lab.reals(op.SVs)}}}
+		mb, _ := pb.Marshal(m)
+		var idxs []*proto.LabelIndex
+		for _, b := range op.NewObs.Bodies {
+			if b.Label != op.Target {
+				continue
+			}
+			li := &proto.LabelIndex{Label: rt, Blocks: map[uint64]*proto.SVCount{}}
+			for _, e := range b.Index {
+				bc := in.G.Blocks[e.Block-1]
+				svc := &proto.SVCount{Counts: map[uint64]uint32{}}
+				for _, c := range e.Counts {
+					svc.Counts[lab.Real(c.SV)] = uint32(c.N)
+				}
+				li.Blocks[labels.EncodeBlockIndex(int32(bc[0]), int32(bc[1]), int32(bc[2]))] = svc
+			}
+			idxs = append(idxs, li)
+		}
+		if len(idxs) != 1 {
+			return 0, nil, fmt.Errorf("agglo: target body %d not in the target observation", op.Target)
+		}
+		for _, mm := range op.Merged {
+			idxs = append(idxs, &proto.LabelIndex{Label: lab.Real(mm)})
+		}
+		in.nIngest++
+		mappingsFirst := in.nIngest%2 == 0
+		if mappingsFirst {
+			if r, err := in.http("POST", base+"/mappings", mb); err != nil || r.Status != 200 {
+				return r.Status, nil, err
+			}
+		}
+		if op.How == "indices" {
+			ib, _ := pb.Marshal(&proto.LabelIndices{Indices: idxs})
+			if r, err := in.http("POST", base+"/indices", ib); err != nil || r.Status != 200 {
+				return r.Status, nil, err
+			}
+		} else {
+			for _, li := range idxs {
+				ib, _ := pb.Marshal(li)
+				if r, err := in.http("POST", fmt.Sprintf("%s/index/%d", base, li.Label), ib); err != nil || r.Status != 200 {
+					return r.Status, nil, err
+				}
+			}
+		}
+		if !mappingsFirst {
+			if r, err := in.http("POST", base+"/mappings", mb); err != nil || r.Status != 200 {
+				return r.Status, nil, err
+			}
+		}
+		return 200, nil, nil
 	case "overwrite":
 		// re-post (mutate) every block that holds one of the regions with the new label
 		if op.Label != 0 {
@@ -349,6 +527,12 @@ func (in *Inst) Apply(uuid string, op Op, lab *Labels) (int, []string, error) {
 				}
 			}
 		}
+		if in.MultiBlock {
+			if err := in.IngestRows(uuid, lab.reals(op.NewSV), blocks, true); err != nil {
+				return 400, nil, nil
+			}
+			return 200, nil, nil
+		}
 		if err := in.Ingest(uuid, lab.reals(op.NewSV), blocks, true); err != nil {
 			return 400, nil, nil
 		}
@@ -372,6 +556,15 @@ func (in *Inst) Apply(uuid string, op Op, lab *Labels) (int, []string, error) {
 		}
 		in.noteAlloc(o.Label, &probs, "split")
 		lab.Bind(op.New, o.Label)
+		if op.OldSV != nil {
+			seen := map[uint64]bool{}
+			for _, rr := range op.Regions {
+				if s := op.OldSV[rr-1]; s != 0 && !seen[s] {
+					seen[s] = true
+					lab.Dead = append(lab.Dead, lab.Real(s))
+				}
+			}
+		}
 		// the ids of the split / remain supervoxels are not in the response: bound from the voxels
 		lab.BindFromVolume = true
 		return 200, probs, nil
@@ -771,7 +964,15 @@ func (in *Inst) Compare(uuid string, want Obs, lab *Labels, lvl Level) ([]string
 	} else {
 		d = append(d, fmt.Sprintf("listlabels: status %d", r.Status))
 	}
-	// 7. a body that does not exist: a supervoxel id that was split away, or a merged body
+	// 7. the read options (see reads.go)
+	in.nCompare++
+	if want.Rd != nil && len(d) == 0 && !in.NoExt && (in.ExtEvery <= 1 || in.nCompare%in.ExtEvery == 0) {
+		de, err := in.compareExt(uuid, want, lab)
+		if err != nil {
+			return nil, err
+		}
+		d = append(d, de...)
+	}
 	return d, nil
 }
 
